@@ -22,6 +22,11 @@
 
 #include "simple_private.h"
 
+#if defined(TUKAANI_PROJECT_XZ_VERIF) && !defined(VERIF_BCJ_LOOP_CONTRACT)
+// Verification hook: /verif's harness defines this to a CBMC loop contract.
+#	define VERIF_BCJ_LOOP_CONTRACT
+#endif
+
 
 static size_t
 arm64_code(void *simple lzma_attribute((__unused__)),
@@ -39,7 +44,11 @@ arm64_code(void *simple lzma_attribute((__unused__)),
 #ifdef __clang__
 #	pragma clang loop vectorize(disable)
 #endif
+#ifdef TUKAANI_PROJECT_XZ_VERIF
+	for (i = 0; i < size; i += 4) VERIF_BCJ_LOOP_CONTRACT {
+#else
 	for (i = 0; i < size; i += 4) {
+#endif
 		uint32_t pc = (uint32_t)(now_pos + i);
 		uint32_t instr = read32le(buffer + i);
 
